@@ -1300,7 +1300,7 @@ fn eof_container(code: Vec<u8>, max_stack: u16, subs: Vec<Vec<u8>>) -> Vec<u8> {
     body.into_eof().raw.to_vec()
 }
 
-fn eof_cases(rng: &mut Rng) -> Vec<Case> {
+fn eof_cases(rng: &mut Rng, reps: usize) -> Vec<Case> {
     let runtime = eof_container(vec![0x00], 0, vec![]);
     // PUSH0 PUSH0 RETURNCONTRACT 0
     let initc = eof_container(vec![0x5f, 0x5f, 0xee, 0x00], 2, vec![runtime.clone()]);
@@ -1313,7 +1313,11 @@ fn eof_cases(rng: &mut Rng) -> Vec<Case> {
         vec![initc.clone(), initrev.clone()],
     );
     let mut v = vec![];
-    for mode in ["obs", "sc", "halt"] {
+    let mut modes = vec!["obs", "sc", "halt"];
+    for _ in 1..reps {
+        modes.extend(["sc", "sc", "halt"]);
+    }
+    for mode in modes {
         let mut legacy = Asm::default();
         legacy.call(0xf1, 0xC1, 0, None, 0).log(1, 3).op(0x00);
         let accts = vec![
@@ -1378,11 +1382,18 @@ fn with_db_failures(rng: &mut Rng, c: &Case, nvar: usize) -> Vec<Case> {
 
 pub fn gen(seed: u64, n: usize, comp: &str) -> Vec<Case> {
     let mut rng = Rng::new(seed ^ 0xC29);
-    let all: Vec<u8> = vec![0, 2, 4, 5, 6, 8, 9, 11, 12, 15, 16, 17, 18];
+    let all: Vec<u8> = vec![0, 2, 4, 5, 6, 8, 9, 11, 12, 15, 16, 17, 18, 19];
     let mut v = vec![];
     let full = n >= 2000;
     if comp == "C30" {
-        v.extend(sd_grid(&mut rng, full));
+        let grid = sd_grid(&mut rng, full);
+        // a failing database under some of them (target load inside SELFDESTRUCT, frame creation, ...)
+        let nf = if full { 150 } else { 15 };
+        for _ in 0..nf {
+            let c = grid[rng.below(grid.len() as u64) as usize].clone();
+            v.extend(with_db_failures(&mut rng, &c, 1));
+        }
+        v.extend(grid);
         // random programs, selfdestruct-heavy by construction of the terminators
         for _ in 0..n / 4 {
             let mode = *rng.pick(&["obs", "obs", "sc", "mut"]);
@@ -1390,7 +1401,11 @@ pub fn gen(seed: u64, n: usize, comp: &str) -> Vec<Case> {
         }
         return v;
     }
-    v.extend(eof_cases(&mut rng));
+    let eofs = eof_cases(&mut rng, if full { 25 } else { 3 });
+    // database failures inside EOF creation as well
+    let with_fail = with_db_failures(&mut rng, &eofs[0], if full { 12 } else { 2 });
+    v.extend(eofs);
+    v.extend(with_fail);
     v.push(depth_case(*rng.pick(&[2u8, 12, 17]), "obs", 1));
     if full {
         v.push(depth_case(0, "obs", 1));
